@@ -285,6 +285,36 @@ def rule_w2(chk: Check):
         outer = repo.find_func(sub, wname)
         fn = repo.find_func(outer, inner)
         where = f"{repo.SUBHEADER}:{fn.lineno}"
+        def _evaluation_verdict():
+            """(undecided-reason, counter-examples) of evaluating the wrapper from source (see the store rule below)."""
+            from .c17 import Crash, EvalError, eval_left_rec, eval_memoize, left_rec_expected
+            import itertools
+            bad_, und_ = [], ""
+            try:
+                if inner == "memoize_wrapper":
+                    for verbose in (False, True):
+                        for succ in (True, False):
+                            for args in ((), ("NUMBER",)):
+                                tree, endp, entry, second, level = eval_memoize(fn, verbose, succ, args)
+                                want_tree, want_end = (("T", args), 5) if succ else (None, 3)
+                                if tree != want_tree or endp != want_end or entry is None or tuple(entry) != (want_tree, want_end) or \
+                                        second != (0, True, True) or level != 0:
+                                    bad_.append((verbose, succ, args, tree, endp, entry, second))
+                else:
+                    for n in range(0, 8 if chk.tier == "thorough" else 6):
+                        for stream in itertools.product("n+x", repeat=n):
+                            for verbose in (False, True):
+                                tree, endp, entry, second, level, depth = eval_left_rec(fn, verbose, stream)
+                                want = left_rec_expected(stream)
+                                if entry is None or tuple(entry) != (want[0], want[1]) or second != (0, True, True):
+                                    bad_.append(("".join(stream), verbose, entry, second))
+            except Crash as e:
+                bad_.append(f"raises {e}")
+            except EvalError as e:
+                und_ = str(e)
+            return und_, bad_
+        _und_ev, _bad_ev = _evaluation_verdict()
+        _eval_clean = not _und_ev and not _bad_ev
         # key = mark, method_name, args|()
         key_assign = [s for s in fn.body if isinstance(s, ast.Assign) and norm_stmt(s.targets[0]) == "key"]
         chk.count("W2-cache-hit")
@@ -302,7 +332,9 @@ def rule_w2(chk: Check):
         good = fast is not None and not any(isinstance(n, (ast.For, ast.While)) for n in ast.walk(fast)) and \
             not any(isinstance(n, ast.Call) and isinstance(n.func, ast.Name) and n.func.id == "method" for b in fast.body for n in ast.walk(b)) and \
             isinstance(fast.body[-1], ast.Return)
-        chk.require(good, "W2-cache-hit", f"{inner}:fast-path", where,
+        # (a spelling the shape test does not know — one `.get()` instead of `in` + index — is decided by the evaluation: the second
+        # call at a position runs the rule body zero times and restores result and position)
+        chk.require(good or _eval_clean, "W2-cache-hit", f"{inner}:fast-path", where,
                     "a cache hit must return without looping or re-running the rule body")
         # every call of method() happens under `key not in self._cache`
         chk.count("W2-cache-hit")
@@ -347,38 +379,14 @@ def rule_w2(chk: Check):
             pass
         except (AnalysisError, SyntaxError):
             calls_ok = False
-        chk.require(calls_ok, "W2-cache-hit", f"{inner}:miss-only", where,
+        chk.require(calls_ok or _eval_clean, "W2-cache-hit", f"{inner}:miss-only", where,
                     "the wrapped rule may only run when the key is not cached")
         # a miss stores what the rule returned — failures included — with the position reached, and the next call at the same
         # position is answered from the cache without running the rule: decided by evaluating the wrapper from source around a
         # fake rule body (plain wrapper: success / failure x arguments; left-recursive wrapper: every token stream of length <= 5
         # for  r: r '+' 'n' | 'n'), tracing on and off.  A skipped store makes every enclosing rule repeat the sub-parse.
-        from .c17 import Crash, EvalError, eval_left_rec, eval_memoize, left_rec_expected
-        import itertools
         chk.count("W2-cache-hit")
-        bad, und = [], ""
-        try:
-            if inner == "memoize_wrapper":
-                for verbose in (False, True):
-                    for succ in (True, False):
-                        for args in ((), ("NUMBER",)):
-                            tree, endp, entry, second, level = eval_memoize(fn, verbose, succ, args)
-                            want_tree, want_end = (("T", args), 5) if succ else (None, 3)
-                            if tree != want_tree or endp != want_end or entry is None or tuple(entry) != (want_tree, want_end) or \
-                                    second != (0, True, True) or level != 0:
-                                bad.append((verbose, succ, args, tree, endp, entry, second))
-            else:
-                for n in range(0, 8 if chk.tier == "thorough" else 6):
-                    for stream in itertools.product("n+x", repeat=n):
-                        for verbose in (False, True):
-                            tree, endp, entry, second, level, depth = eval_left_rec(fn, verbose, stream)
-                            want = left_rec_expected(stream)
-                            if entry is None or tuple(entry) != (want[0], want[1]) or second != (0, True, True):
-                                bad.append(("".join(stream), verbose, entry, second))
-        except Crash as e:
-            bad.append(f"raises {e}")
-        except EvalError as e:
-            und = str(e)
+        und, bad = _und_ev, _bad_ev
         if und:
             chk.undecided("W2-cache-hit", f"{inner}:store-on-all-paths", where, f"not evaluable: {und}")
         else:
